@@ -59,15 +59,23 @@ theorem lastDequeue_outClean (s s1 : BState) (c : ConnId) (x : BConn) (hc : OutC
       simp only [List.mem_cons, List.mem_append] at h
       have key : ∀ (sq : List Message) (tq : List (Nat × Message)) (m : Message),
           ∀ s1, s1 = (if (applyQOS b m).qos = 0 then s.setSessOf c ⟨b.subs, sq, tq, b.sess, b.active⟩
-                  else s.setSessOf c ⟨b.subs, sq, tq, (b.sess.nextID).2.savePacket .outgoing (.publish (applyQOS b m) false (b.sess.nextID).1), b.active⟩) →
+                  else if (b.sess.freshID).1 = 0 then s.setSessOf c ⟨b.subs, sq, tq, (b.sess.freshID).2, b.active⟩
+                  else s.setSessOf c ⟨b.subs, sq, tq, (b.sess.freshID).2.savePacket .outgoing (.publish (applyQOS b m) false (b.sess.freshID).1), b.active⟩) →
           OutClean s1 := by
         intro sq tq m s1 hs1
         split at hs1
         · subst hs1; exact outClean_setSessOf s c b _ hb (fun hh => hh) hc
-        · subst hs1
-          refine outClean_setSessOf s c b _ hb ?_ hc
-          intro hh
-          exact save_publish_clean _ _ _ _ hh
+        · split at hs1
+          · subst hs1
+            refine outClean_setSessOf s c b _ hb ?_ hc
+            intro hh
+            simpa only [MemorySession.freshID_outgoing] using hh
+          · subst hs1
+            refine outClean_setSessOf s c b _ hb ?_ hc
+            intro hh
+            have hh' : ∀ e ∈ (b.sess.freshID).2.outgoing.entries, isConnack e.2 = false := by
+              simpa only [MemorySession.freshID_outgoing] using hh
+            exact save_publish_clean _ _ _ _ hh'
       rcases h with h | h | h
       · subst h; exact hc
       · split at h
